@@ -573,6 +573,46 @@ func genAltair(r *Rand) Input {
 	return g.finish("altair")
 }
 
+// syncEpoch0: a chain whose Altair fork epoch is 0, observed during epoch 0 and around the first
+// period boundary: the first slot of the window must not underflow ("slot -1"), and the refresh of
+// the next period uses the unguarded first slot - 1 of a later period.
+func genSyncEpoch0(r *Rand) Input {
+	g := newHist(r)
+	h := g.h
+	h.HaveAgg = true
+	f := uint64(0)
+	h.SpecAltair = &f
+	g.tag("sync-epoch-0")
+	useNew := r.Bool()
+	h.Hook = !useNew
+	h.Handling = true
+	h.AltairEpoch = 0
+	cur := uint64(r.Intn(int(h.SPE)))
+	if r.Chance(1, 3) {
+		cur = 0
+	}
+	g.add(Op{K: "advance", Slot: cur})
+	g.add(Op{K: "setenv", Env: g.env(0, 2, cur, true)})
+	if useNew {
+		g.add(Op{K: "start"})
+	}
+	for i, n := 0, r.Range(1, 4); i < n; i++ {
+		switch r.Intn(5) {
+		case 0, 1:
+			g.add(Op{K: "schedsync", Epoch: uint64(r.Intn(int(h.Period) + 1)), NotCur: r.Bool()})
+		case 2:
+			g.add(Op{K: "refreshsync", Epoch: uint64(r.Intn(2)) * h.Period})
+		case 3:
+			cur += uint64(r.Range(0, 2))
+			g.add(Op{K: "advance", Slot: cur})
+			g.add(Op{K: "fire", Job: "sync", Num: cur + uint64(r.Intn(2))})
+		default:
+			g.add(Op{K: "setenv", Env: g.env(0, 2, cur, true)})
+		}
+	}
+	return g.finish("sync-epoch-0")
+}
+
 func gen(r *Rand, i int) Input {
 	switch k := r.Intn(100); {
 	case k < 30:
@@ -585,8 +625,10 @@ func gen(r *Rand, i int) Input {
 		return genDirect(r)
 	case k < 82:
 		return genLifecycle(r)
-	case k < 92:
+	case k < 91:
 		return genReorg(r)
+	case k < 94:
+		return genSyncEpoch0(r)
 	default:
 		return genAltair(r)
 	}
